@@ -164,7 +164,19 @@ def run(ctx, F, cg):
                 cross.add((a, b_))
             floaty = {v["name"] for v in adt["variants"] if any("f64" in f[1] or "f32" in f[1] for f in v["fields"])}
             if a in floaty or b_ in floaty:
-                for c in arm["calls"]:
+                # the arm's own calls plus those of the property module's helpers it calls (two levels):
+                # `(Integer, Float) => cmp_int_float(..)` compares floats exactly as the inlined arm did
+                deep, work_ = set(arm["calls"]), [c for c in arm["calls"] if c.startswith("samyama::graph::property::")]
+                for _ in range(2):
+                    nxt = []
+                    for hp in work_:
+                        hr = F.fns.get(hp)
+                        if hr and hp != cmpf["path"]:
+                            new_ = set(hr["calls"]) - deep
+                            deep |= new_
+                            nxt += [c for c in new_ if c.startswith("samyama::graph::property::")]
+                    work_ = nxt
+                for c in sorted(deep):
                     if c in FLOAT_PRIMS:
                         prims.setdefault(FLOAT_PRIMS[c], []).append("(%s, %s)" % (a, b_))
     cmp_prims = {k: v for k, v in prims.items() if k in ("total_cmp", "partial_cmp")}
@@ -222,9 +234,18 @@ def run(ctx, F, cg):
         else:
             ctx.ok("L4", "Hash|exhaustive-distinct-tags", "%d variants, %d distinct tags" % (len(tags), len(set(tags.values()))))
     # ---- L5 ------------------------------------------------------------------------------------------
-    rk = F.fn_opt("cypher_order::rank")
     co = F.fn("graph::property::cypher_order")
     ctx.saw_fn(co["path"])
+    # the ranking function, whatever it is called: a local callee of cypher_order from &PropertyValue to an integer
+    # that matches on the value
+    rk = F.fn_opt("cypher_order::rank")
+    if rk is None:
+        for c_ in co["calls"]:
+            cr_ = F.fns.get(c_)
+            if cr_ and c_.startswith("samyama::graph::property::") and PV in cr_["sig"].split("->")[0] and cr_["sig"].rsplit("->", 1)[-1].strip() in ("u8", "u16", "u32", "usize", "i32", "i8", "u64") \
+                    and any(mm["sty"].replace("&", "").strip().endswith("PropertyValue") for mm in F.arms(c_)):
+                rk = cr_
+                break
     if rk is None:
         ctx.anchor_failure("L5", "cypher_order::rank")
     else:
@@ -247,6 +268,11 @@ def run(ctx, F, cg):
                 for arm in mm["arms"]:
                     if arm["pat"].get("k") in ("wild", "bind") and any(c.endswith("cmp::Ord::cmp") for c in arm["calls"]):
                         falls = True
+        if not falls:
+            # the same fall-through written as a tail expression (`a.cmp(b)`) instead of a wildcard arm
+            cm_ = F.mir(co["path"])
+            if cm_ is not None:
+                falls = any((c.path.endswith("cmp::Ord::cmp") or c.path.endswith("cmp::Ord>::cmp")) and "PropertyValue" in (c.full + c.path) for c in Body(cm_, co).calls())
         if falls:
             ctx.ok("L5", "cypher_order|falls-through-to-Ord", "same-rank pairs are ordered by Ord::cmp")
         else:
